@@ -85,24 +85,24 @@ pub fn spec(id: &str) -> Option<Spec> {
         "C02" => Spec {
             id: "C02",
             run: path::run_speed,
-            cases_quick: 6000,
-            cases_thorough: 400000,
+            cases_quick: 12000,
+            cases_thorough: 2000000,
             rule: "case = generated valid network (1..9 gaps, sidings, flips, permuted indices; 1..6 restrictions per set in controlled relations: nested, overlapping, abutting, equal start/end, enclosing; head-end and tail-end sets; typed speed_sets or speed_set; speed_params gates) x 4 (train, route) pairs x every extension schedule (all 2^(n-1) compositions for short routes, sampled above); enforced(x) read from PathTpc::speed_points() is compared with the reference min(train max, covering posted restrictions) built from the network at every breakpoint of either function and every midpoint (exact for piecewise-constant functions). Non-trivial = route with >=2 non-disjoint active restrictions on one link or a tail-end restriction crossing a link boundary; distinct = hash of route geometry, restrictions and train",
             assumptions: PATH_ASSUME,
         },
         "C13" => Spec {
             id: "C13",
             run: path::run_speed,
-            cases_quick: 6000,
-            cases_thorough: 400000,
+            cases_quick: 12000,
+            cases_thorough: 2000000,
             rule: "same generator and reference as C02; oracle is equality enforced(x) == min(train max, covering restrictions) at every breakpoint and midpoint plus canonical form (strictly increasing offsets, no equal-valued neighbours; zero-length restrictions are a flagged sub-domain where only sortedness is required). Non-trivial/distinct as C02",
             assumptions: PATH_ASSUME,
         },
         "C06" => Spec {
             id: "C06",
             run: path::run_geometry,
-            cases_quick: 5000,
-            cases_thorough: 300000,
+            cases_quick: 10000,
+            cases_thorough: 1500000,
             rule: "case = generated valid network x 3 (train, route) pairs x every extension schedule; link boundaries, elevation (all breakpoints + midpoints), grade and curve coefficients (independent atan2 formulation), cumulative curve resistance, catenary shifts and count bookkeeping are compared with a reference walk over the route's own points; paths from different schedules are compared with PartialEq; one spliced non-contiguous route per case must be rejected with Err. Non-trivial = route of >=3 links with a link without headings, with wrap-around headings or with catenary; distinct = hash of route geometry",
             assumptions: PATH_ASSUME,
         },
@@ -118,29 +118,29 @@ pub fn spec(id: &str) -> Option<Spec> {
         "C03" => Spec { id: "C03", run: train::run_c03, cases_quick: 1600, cases_thorough: 60000,
             rule: "case = generated network (2..8 gaps, grades up to 1.8 %, 1..4 restrictions per set incl. short fast windows between slow zones) x train makeup (1-3 car types, shipped and perturbed vehicles, 3-150 cars, consist sized for weight and grade, conventional/battery mixes, both policies) x extension schedule (whole path + walk(); link-by-link extension with a look-ahead as SavedSim::update_movement; walk_timed_path with entry times from a free run plus random delays). Every saved step: speed >= 0, speed <= posted limit at the front position (reference profile built from the network), speed <= limit in force, speed target <= limit in force; Ok => stopped inside [end-1000 ft, end]; any panic is a violation. Non-trivial = accepted run crossing >=3 link boundaries that brakes for >=1 restriction; distinct = hash of route/train/run length",
             assumptions: TRAIN_ASSUME },
-        "C07" => Spec { id: "C07", run: train::run_c07, cases_quick: 3200, cases_thorough: 120000,
+        "C07" => Spec { id: "C07", run: train::run_c07, cases_quick: 6400, cases_thorough: 800000,
             rule: "case = one set-speed or speed-limited run (all extension schedules) with save interval 1; every saved row k is compared with the definitions evaluated statelessly (binary search, no cached indices) at the position/speed of row k-1: grade and curve resistance from the cumulative path functions at front and rear, rolling/davis-B/bearing/aero from coefficients read from the resistance model AND re-derived from the rail vehicles, weight = g*(cars or override + consist), front elevation, front and rear grade. Non-trivial = run in which front and rear are in different grade pieces for >=1 step; distinct = hash of route/train/run",
             assumptions: TRAIN_ASSUME },
-        "C11" => Spec { id: "C11", run: train::run_c11, cases_quick: 3200, cases_thorough: 120000,
+        "C11" => Spec { id: "C11", run: train::run_c11, cases_quick: 6400, cases_thorough: 800000,
             rule: "case = one set-speed or speed-limited run with save interval 1; train.history, loco_con.history and every loco history are compared row by row (step index alignment first): demanded wheel power = consist request = consist delivery = sum over units; cumulative wheel energy and its positive/negative parts across the three levels; final fuel/battery totals across levels and getters; annualised getters = totals x 365.25/simulation_days for days in {None,1,7,365}. Non-trivial = run with both positive and negative wheel power on a mixed consist; distinct = hash of route/train/run",
             assumptions: TRAIN_ASSUME },
-        "C12" => Spec { id: "C12", run: train::run_c12, cases_quick: 3200, cases_thorough: 120000,
+        "C12" => Spec { id: "C12", run: train::run_c12, cases_quick: 6400, cases_thorough: 800000,
             rule: "case = one set-speed or speed-limited run with save interval 1 over routes with links from 30 m to 6 km; every saved row: time step, trapezoid position update, rear = front - length (same alignment through the run), total distance increment, front segment + in-segment offset identify the front position on the path. Non-trivial = run with a step crossing >=2 link boundaries or >50 rows; distinct = hash of route/train/run",
             assumptions: TRAIN_ASSUME },
-        "C14" => Spec { id: "C14", run: train::run_c14, cases_quick: 4800, cases_thorough: 160000,
+        "C14" => Spec { id: "C14", run: train::run_c14, cases_quick: 9600, cases_thorough: 800000,
             rule: "case = one SetSpeedTrainSim::walk over a generated non-negative speed trace with irregular stamps (0.05-10 s), accelerations that do and do not saturate the consist (15 % of traces carry one negative speed at a random index and must be rejected); every row: time and speed bitwise equal to the trace, inertia power with compound mass, resistance power with mean speed, wheel power = clip(inertia+resistance) with clip values taken from the limits the consist published, energy = power x trace dt. Non-trivial = run with >=1 clipped and >=1 unclipped step; distinct = hash of route/train/trace",
             assumptions: TRAIN_ASSUME },
-        "C19" => Spec { id: "C19", run: hist::run_c19, cases_quick: 9600, cases_thorough: 300000,
+        "C19" => Spec { id: "C19", run: hist::run_c19, cases_quick: 19200, cases_thorough: 1500000,
             rule: "case = one run of one simulation kind (LocomotiveSimulation, ConsistSimulation, SetSpeedTrainSim, SpeedLimitTrainSim whole/timed/link-by-link) with a save interval from {None,1,2,3,7,50,>run} set at construction or through the top-level setter, run lengths 1..900, 30 % of powertrain traces carry an over-limit demand at a chosen step so the run ends with an error; a generic walker collects (len, i column, state.i, save_interval) of every history in the object tree and checks equal lengths, same step per row, equal counters, row count = steps whose index is a multiple of the interval (+ initial state when every step is saved), empty when disabled, interval propagated. Non-trivial = interval not in {None,1} on a consist with >=2 unit kinds; distinct = hash of interval/run length/size",
             assumptions: TRAIN_ASSUME },
-        "C20" => Spec { id: "C20", run: mass::run_c20, cases_quick: 24000, cases_thorough: 1000000,
+        "C20" => Spec { id: "C20", run: mass::run_c20, cases_quick: 24000, cases_thorough: 3000000,
             rule: "case = one object (FuelConverter / Generator / ReversibleEnergyStorage / Locomotive loaded from JSON with redundant mass data: none, consistent, inconsistent, partial, and (35 %) a baseline + ballast + component-mass breakdown, complete or partial, agreeing with the mass or not) followed by 1..12 random calls of component-level set_mass (environment steps), set_mass (all MassSideEffect options, Some/None/derived values), expunge_mass_fields, set_force_max (all five ForceMaxSideEffect options), set_mu (all three MuSideEffect options); or a consist of 1..8 units + a built train. After an accepted call: getters Ok, mass == rating/specific, force_max == mu*mass*g when both known, option-specific side effects; after a rejected call: the stored mass / mu / force_max / baseline / ballast fields are unchanged and every getter that was Ok reports the same value. Non-trivial = sequence with >=1 accepted and >=1 rejected call; distinct = case hash",
             assumptions: &["private mass fields are read through serde_json (pyo3-only getters cannot be linked into a Rust harness)", "Locomotive sequences start from the shipped conventional / battery-electric defaults with mass, mu, force_max overwritten in the JSON"] },
         "C17" => Spec { id: "C17", run: serde_rt::run_c17, cases_quick: 480, cases_thorough: 24000,
             rule: "case k selects a type group (k mod 13): components (incl. batteries with SOC outside their window), locomotive kinds and consists, traces/vehicles/configs/builders, track objects (Link, Network, PathTpc built/finished), the four simulation kinds, estimated-time networks; one evaluation = one object taken through yaml, json and bincode (string/bytes API) and through the file API (to_file/from_file on one path per format per process, so files are overwritten by longer and shorter objects): serialize, deserialize, second round trip byte-identical (no drift), reloaded data equal (bitwise for yaml/bincode, <= 1 ulp per number for json). For simulations EVERY step index 0..N of a short run (8-60 steps) is a checkpoint: save, load, resume to the end, final object compared with the uninterrupted run. Non-trivial = object not in its default/valid() state; distinct = (type, content)",
             assumptions: &["'behaves identically' is decided on the serialized data of the object after running to the end (fields marked serde(skip) are caches rebuilt on demand and are not compared)",
                 ".bin files are not read back for objects whose bytes-API round trip already fails (recorded bincode findings): bincode's reader would pre-allocate the length a misaligned stream claims and abort the process"] },
-        "C15" => Spec { id: "C15", run: dispatch::run_c15, cases_quick: 320, cases_thorough: 12000,
+        "C15" => Spec { id: "C15", run: dispatch::run_c15, cases_quick: 320, cases_thorough: 40000,
             rule: "one evaluation = one estimated-time network; generated network (5..45 gaps, 0..k sidings, two origins / two destinations, flips, shortest O-D route 10-160 km) x 1..3 trains (both directions, departure 0..3 h); make_est_times for each; the whole graph is traversed: reciprocity of every forward/backward link, EVERY start-to-end walk enumerated by DFS (primary and alternate links; capped at 4000 per net, cap hits recorded), the arrive/clear events of each walk checked against the track network (origin, destination, contiguity, clear after arrive in order), every time/duration finite and non-negative, primary-predecessor equality and predecessor inequality on every edge, trip time = last - first. Non-trivial = net with >=1 split and >=1 join; distinct = hash of (nodes, walks, splits, route, train)",
             assumptions: DISP_ASSUME },
         "C04" => Spec { id: "C04", run: dispatch::run_dispatch_case, cases_quick: 480, cases_thorough: 20000,
